@@ -1,19 +1,22 @@
 #!/usr/bin/env python3
-"""tools/seeded_record.py <ID> <n> <caught_by|MISSED> <detail>   -- copy a confirmed seeded change into /verif/seeded/<ID>-<n>/"""
+"""tools/seeded_record.py <ID> <n> <caught_by|MISSED> <detail> [<srcdir> <src_n>]  -- copy a confirmed seeded change into /verif/seeded/<ID>-<n>/
+(second-round changes live in /tmp/seed-out/r2-<ID>/ as patch{1,2}.diff and are recorded as <ID>-3, <ID>-4)"""
 import json, os, re, shutil, sys, glob
 ID, n, caught, detail = sys.argv[1], sys.argv[2], sys.argv[3], sys.argv[4]
-src = f"/tmp/seed-out/{ID}"
+src = sys.argv[5] if len(sys.argv) > 5 else f"/tmp/seed-out/{ID}"
+sn = sys.argv[6] if len(sys.argv) > 6 else n
+tag = f"{os.path.basename(src)} {sn}" if len(sys.argv) > 5 else f"{ID} {n}"
 dst = f"/verif/seeded/{ID}-{n}"
 os.makedirs(dst, exist_ok=True)
-shutil.copy(f"{src}/patch{n}.diff", f"{dst}/patch.diff")
-shutil.copy(f"{src}/demo{n}.rs", f"{dst}/demo.rs")
-if os.path.exists(f"{src}/patch{n}.orig.diff"):
-    shutil.copy(f"{src}/patch{n}.orig.diff", f"{dst}/patch.as-written.diff")
-meta = json.load(open(f"{src}/meta{n}.json"))
+shutil.copy(f"{src}/patch{sn}.diff", f"{dst}/patch.diff")
+shutil.copy(f"{src}/demo{sn}.rs", f"{dst}/demo.rs")
+if os.path.exists(f"{src}/patch{sn}.orig.diff"):
+    shutil.copy(f"{src}/patch{sn}.orig.diff", f"{dst}/patch.as-written.diff")
+meta = json.load(open(f"{src}/meta{sn}.json"))
 ver = None
 for log in sorted(glob.glob("/tmp/seed-out/verify*.log")):
     txt = open(log).read()
-    m = re.search(rf"#### {ID} {n}\n(demo WITHOUT change:[^\n]*)\n(demo WITH change:[^\n]*)\n(suite WITH change:[^\n]*)", txt)
+    m = re.search(rf"#### {re.escape(tag)}\n(demo WITHOUT change:[^\n]*)\n(demo WITH change:[^\n]*)\n(suite WITH change:[^\n]*)", txt)
     if m:
         ver = [m.group(1).strip(), m.group(2).strip(), m.group(3).strip()]
 out = {
